@@ -243,4 +243,130 @@ theorem writes_not_mem (t : AForest) : ∀ (ws : List (Nat × Nat)), (∀ w ∈ 
     rw [write_not_mem t w.1 w.2 (h w (List.mem_cons_self ..))]
     exact writes_not_mem t ws (fun w' hw' => h w' (List.mem_cons_of_mem _ hw'))
 
+/-! ### kind mapper: every kind exactly one id, for every schedule -/
+
+/-- table invariant: one entry per kind, ids pairwise distinct, all below `next`, dense -/
+structure KMInv (g : KM) : Prop where
+  keys : (g.table.map (·.1)).Nodup
+  ids : (g.table.map (·.2)).Nodup
+  bound : ∀ p ∈ g.table, 1 ≤ p.2 ∧ p.2 < g.next
+  dense : g.table.length + 1 = g.next
+
+theorem has_iff {g : KM} {k : Nat} : g.has k = true ↔ k ∈ g.table.map (·.1) := by
+  unfold KM.has
+  simp [List.any_eq_true, List.mem_map]
+
+theorem KMInv.new : KMInv KM.new where
+  keys := List.nodup_nil
+  ids := List.nodup_nil
+  bound := fun _ h => (nomatch h)
+  dense := rfl
+
+theorem KMInv.put {g : KM} (h : KMInv g) (k : Nat) : KMInv (g.put true k) := by
+  unfold KM.put
+  by_cases hk : g.has k = true
+  · simp [hk]; exact h
+  · simp only [hk, Bool.and_false, Bool.false_eq_true, if_false]
+    have hnk : k ∉ g.table.map (·.1) := fun hm => hk (has_iff.2 hm)
+    refine ⟨?_, ?_, ?_, ?_⟩
+    · simp only [List.map_cons, List.nodup_cons]; exact ⟨hnk, h.keys⟩
+    · simp only [List.map_cons, List.nodup_cons]
+      refine ⟨?_, h.ids⟩
+      intro hm
+      obtain ⟨p, hp, e⟩ := List.mem_map.1 hm
+      have := (h.bound p hp).2
+      omega
+    · intro p hp
+      cases hp with
+      | head => have := h.dense; simp; omega
+      | tail _ hp => have := h.bound p hp; simp; omega
+    · simp; have := h.dense; omega
+
+theorem has_put_mono (c : Bool) {g : KM} {k k' : Nat} (h : g.has k = true) : (g.put c k').has k = true := by
+  unfold KM.put
+  split
+  · exact h
+  · unfold KM.has at h ⊢; simp [List.any_cons, h]
+
+theorem has_put_self {g : KM} (k : Nat) : (g.put true k).has k = true := by
+  unfold KM.put
+  by_cases hk : g.has k = true
+  · simp [hk]
+  · have hk' : g.has k = false := by simpa using hk
+    simp only [hk', Bool.and_false, Bool.false_eq_true, if_false]
+    simp [KM.has]
+
+/-- per-goroutine invariant: every requested kind is registered already or still on this goroutine's to-do list -/
+def KMPCInv (g : KM) : KMPC → Prop
+  | .start _ => True
+  | .putting ks todo => ∀ k ∈ ks, g.has k = true ∨ k ∈ todo
+  | .done ks => ∀ k ∈ ks, g.has k = true
+
+theorem KMPCInv.mono {g : KM} {pc : KMPC} (h : KMPCInv g pc) (k' : Nat) : KMPCInv (g.put true k') pc := by
+  cases pc with
+  | start ks => trivial
+  | putting ks todo => intro k hk; cases h k hk with
+    | inl h1 => exact Or.inl (has_put_mono true h1)
+    | inr h1 => exact Or.inr h1
+  | done ks => intro k hk; exact has_put_mono true (h k hk)
+
+theorem kmStepT_inv {g : KM} (hg : KMInv g) {pc : KMPC} (hp : KMPCInv g pc) :
+    KMInv (kmStepT true g pc).1 ∧ KMPCInv (kmStepT true g pc).1 (kmStepT true g pc).2 := by
+  cases pc with
+  | start ks =>
+    refine ⟨hg, ?_⟩
+    intro k hk
+    by_cases h : g.has k = true
+    · exact Or.inl h
+    · exact Or.inr (List.mem_filter.2 ⟨hk, by simp [h]⟩)
+  | putting ks todo =>
+    cases todo with
+    | nil =>
+      refine ⟨hg, ?_⟩
+      intro k hk
+      cases hp k hk with
+      | inl h => exact h
+      | inr h => cases h
+    | cons k' t =>
+      refine ⟨hg.put k', ?_⟩
+      intro k hk
+      cases hp k hk with
+      | inl h => exact Or.inl (has_put_mono true h)
+      | inr h =>
+        cases h with
+        | head => exact Or.inl (has_put_self _)
+        | tail _ h => exact Or.inr h
+  | done ks => exact ⟨hg, hp⟩
+
+/-- what the other goroutines see of one step: the table only grows through `put true` or stays -/
+theorem kmStepT_others {g : KM} {pc pc' : KMPC} (h : KMPCInv g pc') : KMPCInv (kmStepT true g pc).1 pc' := by
+  cases pc with
+  | start ks => exact h
+  | putting ks todo =>
+    cases todo with
+    | nil => exact h
+    | cons k' t => exact h.mono k'
+  | done ks => exact h
+
+theorem kmStep_inv {s : KMState} (hg : KMInv s.g) (hp : ∀ pc ∈ s.pcs, KMPCInv s.g pc) (i : Nat) :
+    KMInv (kmStep true s i).g ∧ ∀ pc ∈ (kmStep true s i).pcs, KMPCInv (kmStep true s i).g pc := by
+  unfold kmStep
+  cases hi : s.pcs[i]? with
+  | none => exact ⟨hg, hp⟩
+  | some pc =>
+    have hmem : pc ∈ s.pcs := List.mem_of_getElem? hi
+    have h := kmStepT_inv hg (hp pc hmem)
+    refine ⟨h.1, ?_⟩
+    intro pc' hpc'
+    rcases List.mem_or_eq_of_mem_set hpc' with h1 | h1
+    · exact kmStepT_others (hp pc' h1)
+    · rw [h1]; exact h.2
+
+theorem kmRun_inv : ∀ (sched : List Nat) (s : KMState), KMInv s.g → (∀ pc ∈ s.pcs, KMPCInv s.g pc) →
+    KMInv (kmRun true s sched).g ∧ ∀ pc ∈ (kmRun true s sched).pcs, KMPCInv (kmRun true s sched).g pc
+  | [], s, hg, hp => ⟨hg, hp⟩
+  | i :: t, s, hg, hp => by
+    have h := kmStep_inv hg hp i
+    exact kmRun_inv t (kmStep true s i) h.1 h.2
+
 end Dawgs.C05
